@@ -205,7 +205,7 @@ def run_case(case):
             if body_len:
                 pts = sorted(set([0, 1, body_len - 1] + [r.randrange(body_len) for _ in range(4)]))
                 for t in pts:
-                    for how in ("rst", "close", "close-wok"):
+                    for how in ("rst:2", "rst:0", "rst:8", "close", "close-wok"):
                         out, origin, net = await _one(flavor, spec, Segmentation("all"), truncate=t, trunc_how=how)
                         cnt["runs"] += 1
                         cnt["oracle_truncation"] += 1
